@@ -16,6 +16,7 @@ import sys
 sys.path.insert(0, os.path.dirname(os.path.abspath(__file__)))
 import emit
 import universe_a
+import universe_m
 
 HARNESS = os.path.join(os.path.dirname(os.path.dirname(os.path.abspath(__file__))), 'harness')
 NSHARDS = 8
@@ -66,6 +67,38 @@ def main():
             + emit.emit_eps_asserts(rs) + '\n}\n'
         write_if_changed(os.path.join(HARNESS, name, 'Cargo.toml'), crate_toml(name, ['model', 'rt', 'ud']))
         write_if_changed(os.path.join(HARNESS, name, 'src', 'lib.rs'), src)
+    # seq roots (C16 / C13)
+    z, d = universe_a.seq_elems()
+    lines = []
+    names = []
+    for i, t in enumerate(z):
+        lines.append('rt::seq_root!(zero, S%d, %s, "%s");' % (i, t.rust(), t.rust()))
+        names.append('&S%d' % i)
+    for i, t in enumerate(d):
+        lines.append('rt::seq_root!(deep, SD%d, %s, "%s");' % (i, t.rust(), t.rust()))
+        names.append('&SD%d' % i)
+    lines.append('pub static SEQ_ROOTS: &[&dyn rt::SeqRoot] = &[%s];' % ', '.join(names))
+    write_if_changed(os.path.join(HARNESS, 'us', 'Cargo.toml'), crate_toml('us', ['model', 'rt', 'ud']))
+    write_if_changed(os.path.join(HARNESS, 'us', 'src', 'lib.rs'), emit.PRELUDE + 'use ud::*;\n\n' + '\n'.join(lines) + '\n')
+    # mutant universe (C04)
+    mdefs, mpairs = universe_m.build()
+    useen = {}
+    for (kind, same, t, u) in mpairs:
+        useen.setdefault(u.rust(), u)
+    ulist = list(useen.values())
+    meta = ', '.join('("%s", "%s", "%s", %s)' % (t.rust(), u.rust(), kind, 'true' if same else 'false') for (kind, same, t, u) in mpairs)
+    aroots = set(t.rust() for t in roots)
+    tseen = {}
+    for (kind, same, t, u) in mpairs:
+        if t.rust() not in aroots:
+            tseen.setdefault(t.rust(), t)
+    tlist = list(tseen.values())
+    src = emit.PRELUDE + 'use ud::*;\n\n' + emit.emit_modules(mdefs, glue='hasty') + '\n\n' + emit.emit_hash_roots(ulist) \
+        + '\n\n' + emit.emit_roots(tlist, prefix='MT', table='MT_ROOTS') \
+        + '\n\n/// (T, U, mutation kind, same serialised structure expected)\npub static PAIRS: &[(&str, &str, &str, bool)] = &[%s];\n' % meta
+    write_if_changed(os.path.join(HARNESS, 'um', 'Cargo.toml'), crate_toml('um', ['model', 'rt', 'ud']))
+    write_if_changed(os.path.join(HARNESS, 'um', 'src', 'lib.rs'), src)
+    print('universe M: %d mutant definitions, %d designated pairs, %d target types' % (len(mdefs), len(mpairs), len(ulist)))
     print('universe A: %d definitions, %d roots in %d shards' % (len(defs), len(roots), NSHARDS))
 
 
